@@ -146,14 +146,14 @@ theorem seg_decomp {box : Bound α} (hb : BoxOK box) (a b : Pt α) :
       rw [List.mem_singleton] at hse; subst hse
       intro t t0 t1 hin
       exact key.2 _ (onSeg_lerp a b t0 t1) (Or.inl hin)
-    · rw [clipSeg_of_reject hr]
+    · rw [clipSeg_of_reject hb hr]
       exact ⟨fun q => by simp [crE_nil], fun q => by simp [onE_nil], fun g => by simp [dE_nil],
         fun q => by simp [wE_nil], fun P => by simp [dZ_nil]⟩
   · -- accepted: `[s, e]`
     rw [hr] at key
     obtain ⟨_, hia, hib, hoa, hob, _, _, hcomp⟩ := key
     obtain ⟨_, eA, _, eB⟩ := ends _ _ _ hr
-    rw [clipSeg_of_accept hr]
+    rw [clipSeg_of_accept hb hr]
     have hcompl : ∀ t, 0 ≤ t → t ≤ 1 → InOpenBox box (lerp a b t) → a ≠ b → s ≤ t ∧ t ≤ e := by
       intro t t0 t1 hin hab
       obtain ⟨τ, τ0, τ1, hq⟩ := hcomp _ (onSeg_lerp a b t0 t1) (Or.inl hin)
